@@ -558,7 +558,9 @@ class SimActor(pykka.Actor):
         log_before = len(w.log)
         try:
             try:
-                if w.fault_hook is not None and envelope.reply_to is None:
+                # faults are injected into told messages and into delayed calls however they were posted (an exception in an
+                # asked call goes to the asker and does not kill the controller)
+                if w.fault_hook is not None and (envelope.reply_to is None or "@" in name):
                     exc = w.fault_hook(self.sim_name, name, idx)
                     if exc is not None:
                         raise exc
